@@ -20,6 +20,8 @@ def build(tier, rng, work):
     # generated suites: random setup DAGs and product tests on the shipped base, eager and after lazy traversals
     graphs += PP.gen_graphs(rng, 6 if tier == "quick" else 64, work)
     graphs += PP.gen_lazy_graphs(rng, 1 if tier == "quick" else 8, 3 if tier == "quick" else 6, work)
+    # the handcrafted suite whose product-test states are named after the producing test (known finding F-C06-2)
+    graphs += PP.gen_graphs(rng, 1, work, fixed="STATE_NAMED_AFTER_TEST")
     return graphs
 
 
